@@ -549,10 +549,8 @@ class PolyFixedVariableComposite(ComposedPolySampler):
 
 
 def fix_variables(poly, fixed_variables):
-    if () in poly.keys():
-        offset = poly[()]
-    else:
-        offset = 0.0
+    # the constant term, if any, is picked up by the loop below
+    offset = 0.0
     poly_copy = defaultdict(float)
     for k, v in poly.items():
         k = set(k)
